@@ -35,10 +35,10 @@ REG_OF_OP = {
     "set_dynamic_payloads": (0x1C, 0x1D), "payload_length": (0x11,), "set_payload_length": (0x11,), "ack": (1, 0x1C, 0x1D),
     "allow_ask_no_ack": (0x1D,), "interrupt_config": (0,), "power": (0,), "open_rx_pipe": (2, 0x0A), "close_rx_pipe": (2,),
     "open_tx_pipe": (0x0A, 0x10), "listen": (0, 2, 0x0A), "load_ack": (1, 0x1C, 0x1D), "start_carrier_wave": (0, 6),
-    "stop_carrier_wave": (0, 6), "ctx": (0,), "getters": (), "getp": (), "print": (),
+    "stop_carrier_wave": (0, 6), "ctx": (0,), "getters": (), "getp": (), "print": (), "get": (),
 }
 LITE_OPS = {"channel", "data_rate", "pa_level", "address_length", "ard", "arc", "dynamic_payloads", "payload_length", "ack",
-            "interrupt_config", "power", "open_rx_pipe", "close_rx_pipe", "open_tx_pipe", "listen", "load_ack", "getters"}
+            "interrupt_config", "power", "open_rx_pipe", "close_rx_pipe", "open_tx_pipe", "listen", "load_ack", "getters", "get"}
 
 
 def dec(v):
@@ -234,6 +234,27 @@ def run_case(case, prefix=None):
                 res.fail("%s/%s-reg%02X" % (P, args[0], d[0][0]), "register 0x%02X %r, expected %r" % d[0])
                 break
             continue
+        if name == "get":
+            # ONE getter on its own (the all-getters step re-reads every shadow, which can heal what a single getter broke)
+            if lite and args[0] in ("auto_ack", "crc", "allow_ask_no_ack", "is_lna_enabled"):
+                continue
+            try:
+                v = getattr(r, args[0])
+            except Exception as e:  # noqa: BLE001
+                res.fail("%s%s/getter-raises-%s" % (P, tainted, type(e).__name__), "%s: %r" % (args[0], e))
+                break
+            exp1 = model.getters()
+            if lite:
+                exp1["dynamic_payloads"] = bool(model.r[0x1D] & 4)
+                exp1["ack"] = (model.r[0x1D] & 6) == 6 and bool(model.r[0x1C])
+                exp1["listen"] = (model.r[0] & 3) == 3
+            if v != exp1[args[0]]:
+                res.fail("%s%s/getter-%s" % (P, tainted, args[0]), "%s returned %r, value in effect %r" % (args[0], v, exp1[args[0]]))
+            d = diff_regs(chip.regfile(), model.r)
+            if d:
+                res.fail("%s%s/getters-change-reg%02X" % (P, tainted, d[0][0]), "register 0x%02X %r, expected %r" % d[0])
+                break
+            continue
         if name == "print":
             # print_pipes() / print_details(dump_pipes) re-read the driver's shadow copies from the radio: they are
             # reports, so they must not raise, must leave every register alone, and whatever follows (getters, ctx)
@@ -369,6 +390,7 @@ BOUNDARY_OPS = [
     ["getp", "get_payload_length", -1], ["getp", "get_payload_length", 6], ["getp", "get_auto_ack", 6],
     ["getp", "get_dynamic_payloads", -1],
     ["print", "pipes"], ["print", "details", True],
+    ["get", "ack"], ["get", "dynamic_payloads"], ["get", "auto_ack"], ["get", "arc"], ["get", "pa_level"], ["get", "payload_length"],
 ]
 TAIL = [["ctx"], ["getters"], ["ctx"]]
 
@@ -417,6 +439,8 @@ def strategy(drv="full"):
         st.tuples(st.just("load_ack"), st.binary(max_size=34).map(lambda b: {"t": "bytes", "v": b.hex()}), pipe),
         st.just(("start_carrier_wave",)), st.just(("stop_carrier_wave",)), st.just(("ctx",)), st.just(("getters",)),
         st.sampled_from([("print", "pipes"), ("print", "details", True), ("print", "details", False)]),
+        st.tuples(st.just("get"), st.sampled_from(["ack", "dynamic_payloads", "auto_ack", "arc", "ard", "pa_level", "payload_length", "channel",
+                                                     "data_rate", "address_length", "crc", "listen", "power"])),
         st.tuples(st.just("getp"), st.sampled_from(["get_payload_length", "get_auto_ack", "get_dynamic_payloads"]),
                   st.sampled_from([-1, 6, 7, -6])),
     ]
